@@ -1,21 +1,3 @@
-// ===== spec library: byte-level keystream application through a buffering wrapper (C08, C10, C11) =====
-// Abstract wrapper state: the core's state `ka` and the not-yet-used bytes `buf` of the last generated
-// keystream block.  One byte at a time: use a buffered byte if there is one, otherwise generate the next
-// block, use its first byte and buffer the rest.
-pub open spec fn wks_run(k: KStep, ka: KAbs, buf: Seq<u8>, data: Seq<u8>) -> (KAbs, Seq<u8>, Seq<u8>)
-    decreases data.len()
-{
-    if data.len() == 0 { (ka, buf, Seq::empty()) }
-    else if buf.len() > 0 {
-        let r = wks_run(k, ka, buf.skip(1), data.skip(1));
-        (r.0, r.1, seq![data[0] ^ buf[0]] + r.2)
-    } else {
-        let s = k(ka);
-        let r = wks_run(k, s.0, s.1.skip(1), data.skip(1));
-        (r.0, r.1, seq![data[0] ^ s.1[0]] + r.2)
-    }
-}
-
 pub proof fn wks_len(k: KStep, ka: KAbs, buf: Seq<u8>, data: Seq<u8>)
     ensures wks_run(k, ka, buf, data).2.len() == data.len()
     decreases data.len()
@@ -123,18 +105,6 @@ pub proof fn wks_blocks(k: KStep, ka: KAbs, blocks: Seq<Blk>, b: nat)
     }
 }
 
-// ---------------------------------------------------------------- seeking (C10)
-pub open spec fn step_law(k: KStep, m: int) -> bool {
-    forall |a: KAbs| (#[trigger] k(a)).0 == (KAbs { base: a.base, pos: (a.pos + 1) % m })
-}
-pub open spec fn zeros(n: nat) -> Seq<u8> { Seq::new(n, |i: int| 0u8) }
-
-// the wrapper state (core state, buffered bytes) at byte offset p of the keystream that starts at origin `o`
-pub open spec fn wseek_state(k: KStep, o: KAbs, m: int, bs: int, p: int) -> (KAbs, Seq<u8>) {
-    let a = KAbs { base: o.base, pos: (o.pos + p / bs) % m };
-    if p % bs == 0 { (a, Seq::<u8>::empty()) } else { (k(a).0, k(a).1.skip(p % bs)) }
-}
-
 pub proof fn ks_run_pos(k: KStep, a: KAbs, n: nat, m: int)
     requires step_law(k, m), m > 0, 0 <= a.pos < m
     ensures ks_run(k, a, n).0 == (KAbs { base: a.base, pos: (a.pos + n) % m })
@@ -194,8 +164,6 @@ pub proof fn wks_xor_zero(k: KStep, ka: KAbs, buf: Seq<u8>, d: Seq<u8>)
         }
     }
 }
-
-pub open spec fn zero_blocks(n: nat, b: nat) -> Seq<Blk> { Seq::new(n, |i: int| zeros(b)) }
 
 pub proof fn flatg_zero_blocks(n: nat, b: nat)
     ensures flatg(zero_blocks(n, b)) == zeros(n * b)
@@ -261,22 +229,6 @@ pub proof fn wseek_keystream(k: KStep, o: KAbs, m: int, bs: nat, p: nat, d: Seq<
     assert((r1.2 + r2.2).skip(p as int) =~= r2.2);
 }
 
-// the byte position a wrapper reports, as a function of its state: blocks generated since the origin times the
-// block size, minus the bytes still buffered
-pub open spec fn spos_of(a: KAbs, o: KAbs, m: int, bs: int, nbuf: int) -> int { ((a.pos - o.pos) % m) * bs - nbuf }
-
-pub proof fn mod_diff(o: int, q: int, m: int)
-    requires 0 <= o < m, 0 <= q < m
-    ensures (((o + q) % m) - o) % m == q
-{
-    mod_add_wrap(o, q, m);
-    if o + q < m {
-        vstd::arithmetic::div_mod::lemma_small_mod(q as nat, m as nat);
-    } else {
-        vstd::arithmetic::div_mod::lemma_mod_add_multiples_vanish(q - m, m);
-        vstd::arithmetic::div_mod::lemma_small_mod(q as nat, m as nat);
-    }
-}
 
 // C10: at the state a seek to p installs, the reported position is p (p inside the usable keystream)
 pub proof fn wseek_pos(k: KStep, o: KAbs, m: int, bs: nat, p: nat)
@@ -328,3 +280,150 @@ pub proof fn wpos_after_run(k: KStep, o: KAbs, m: int, bs: nat, p: nat, d: Seq<u
     wks_state_indep(k, st.0, st.1, d, zeros(n));
     wseek_pos(k, o, m, bs, p + n);
 }
+
+pub proof fn flatg_concat<T>(x: Seq<Seq<T>>, y: Seq<Seq<T>>)
+    ensures flatg(x + y) == flatg(x) + flatg(y)
+    decreases y.len()
+{
+    if y.len() == 0 {
+        assert(x + y =~= x);
+        assert(flatg(y) =~= Seq::<T>::empty());
+        assert(flatg(x) + flatg(y) =~= flatg(x));
+    } else {
+        flatg_concat(x, y.drop_last());
+        assert((x + y).drop_last() =~= x + y.drop_last());
+        assert((x + y).last() == y.last());
+        assert(flatg(x) + (flatg(y.drop_last()) + y.last()) =~= (flatg(x) + flatg(y.drop_last())) + y.last());
+    }
+}
+
+pub proof fn flatg_head<T>(s: Seq<Seq<T>>)
+    requires s.len() >= 1
+    ensures flatg(s) == s[0] + flatg(s.skip(1))
+{
+    assert(s =~= seq![s[0]] + s.skip(1));
+    flatg_concat(seq![s[0]], s.skip(1));
+    flatg_one(seq![s[0]]);
+}
+
+pub proof fn run_out_lens(step: Step, a: Abs, xs: Seq<Blk>, b: nat)
+    requires
+        forall |i: int| 0 <= i < xs.len() ==> (#[trigger] xs[i]).len() == b,
+        forall |a: Abs, x: Blk| x.len() == b ==> (#[trigger] step(a, x)).1.len() == b,
+    ensures
+        run(step, a, xs).1.len() == xs.len(),
+        forall |i: int| 0 <= i < xs.len() ==> (#[trigger] run(step, a, xs).1[i]).len() == b,
+    decreases xs.len()
+{
+    run_len(step, a, xs);
+    if xs.len() > 0 {
+        let k = xs.len() - 1;
+        run_concat(step, a, xs.take(k), xs.skip(k));
+        assert(xs.take(k) + xs.skip(k) =~= xs);
+        let r1 = run(step, a, xs.take(k));
+        assert forall |i: int| 0 <= i < xs.take(k).len() implies (#[trigger] xs.take(k)[i]).len() == b by { assert(xs.take(k)[i] == xs[i]); }
+        run_out_lens(step, a, xs.take(k), b);
+        assert(xs.skip(k) =~= seq![xs[k]]);
+        run_one(step, r1.0, xs[k]);
+        run_len(step, a, xs.take(k));
+        let r2 = run(step, r1.0, xs.skip(k));
+        assert forall |i: int| 0 <= i < xs.len() implies (#[trigger] run(step, a, xs).1[i]).len() == b by {
+            if i < k { assert((r1.1 + r2.1)[i] == r1.1[i]); } else { assert((r1.1 + r2.1)[i] == r2.1[0]); }
+        }
+    }
+}
+
+pub proof fn cfb_bytewise(e: spec_fn(Blk) -> Blk, b: nat)
+    ensures bytewise(cfb_enc_step(e), b), bytewise(cfb_dec_step(e), b)
+{
+    assert forall |a: Abs, x: Blk, y: Blk, n: int| x.len() == b && y.len() == b && 0 <= n <= b && x.take(n) == y.take(n)
+        implies (#[trigger] cfb_enc_step(e)(a, x).1.take(n)) == (#[trigger] cfb_enc_step(e)(a, y)).1.take(n) by {
+        let ox = xor_seq(x, a[0]); let oy = xor_seq(y, a[0]);
+        assert forall |i: int| 0 <= i < ox.take(n).len() implies ox.take(n)[i] == oy.take(n)[i] by { assert(x[i] == x.take(n)[i]); assert(y[i] == y.take(n)[i]); }
+        assert(ox.take(n) =~= oy.take(n));
+    }
+    assert forall |a: Abs, x: Blk, y: Blk, n: int| x.len() == b && y.len() == b && 0 <= n <= b && x.take(n) == y.take(n)
+        implies (#[trigger] cfb_dec_step(e)(a, x).1.take(n)) == (#[trigger] cfb_dec_step(e)(a, y)).1.take(n) by {
+        let ox = xor_seq(x, a[0]); let oy = xor_seq(y, a[0]);
+        assert forall |i: int| 0 <= i < ox.take(n).len() implies ox.take(n)[i] == oy.take(n)[i] by { assert(x[i] == x.take(n)[i]); assert(y[i] == y.take(n)[i]); }
+        assert(ox.take(n) =~= oy.take(n));
+    }
+}
+
+// C08 (one-shot CFB through AsyncStreamCipher): the output for a message is the same-length prefix of the output for
+// any extension of it.  (blocks, tail) and (blocks2, tail2) are the cuts of the message and of its extension.
+pub proof fn lemma_async_prefix(step: Step, a: Abs, blocks: Seq<Blk>, tail: Seq<u8>, blocks2: Seq<Blk>, tail2: Seq<u8>, b: nat)
+    requires
+        bytewise(step, b), b >= 1,
+        forall |i: int| 0 <= i < blocks2.len() ==> (#[trigger] blocks2[i]).len() == b,
+        forall |a: Abs, x: Blk| x.len() == b ==> (#[trigger] step(a, x)).1.len() == b,
+        tail.len() < b, tail2.len() < b,
+        blocks.len() <= blocks2.len(), blocks2.take(blocks.len() as int) == blocks,
+        if blocks2.len() == blocks.len() { tail.len() <= tail2.len() && tail2.take(tail.len() as int) == tail }
+        else { blocks2[blocks.len() as int].take(tail.len() as int) == tail },
+    ensures
+        async_out(step, a, blocks, tail, b) == async_out(step, a, blocks2, tail2, b).take((blocks.len() * b + tail.len()) as int),
+{
+    let k = blocks.len() as int;
+    let n = tail.len() as int;
+    let r = run(step, a, blocks);
+    let r2 = run(step, a, blocks2);
+    assert(blocks2 =~= blocks + blocks2.skip(k));
+    run_concat(step, a, blocks, blocks2.skip(k));
+    run_len(step, a, blocks);
+    run_len(step, a, blocks2);
+    let rest = run(step, r.0, blocks2.skip(k));
+    assert(r2.1 == r.1 + rest.1);
+    // lengths of output blocks
+    run_out_lens(step, a, blocks2, b);
+    assert forall |i: int| 0 <= i < r.1.len() implies (#[trigger] r.1[i]).len() == b by { assert(r.1[i] == r2.1[i]); }
+    flatg_len(r.1, b);
+    flatg_len(r2.1, b);
+    flatg_concat(r.1, rest.1);
+    let o2 = async_out(step, a, blocks2, tail2, b);
+    if blocks2.len() == k {
+        assert(blocks2.skip(k) =~= Seq::<Blk>::empty());
+        assert(rest.1 =~= Seq::<Blk>::empty());
+        assert(r2 == r);
+        if n == 0 {
+            assert(tail =~= Seq::<u8>::empty());
+            if tail2.len() == 0 { assert(flatg(r.1).take(k * b) =~= flatg(r.1)); }
+            else { assert((flatg(r.1) + step(r.0, zero_pad(tail2, b)).1.take(tail2.len() as int)).take(k * b) =~= flatg(r.1)); }
+        } else {
+            let x = zero_pad(tail, b); let y = zero_pad(tail2, b);
+            assert(x.take(n) =~= y.take(n)) by {
+                assert forall |i: int| 0 <= i < n implies x.take(n)[i] == y.take(n)[i] by { assert(tail2.take(n)[i] == tail[i]); }
+            }
+            assert(step(r.0, x).1.take(n) == step(r.0, y).1.take(n));
+            let m2 = tail2.len() as int;
+            assert(step(r.0, y).1.take(m2).take(n) =~= step(r.0, y).1.take(n));
+            assert((flatg(r.1) + step(r.0, y).1.take(m2)).take(k * b + n) =~= flatg(r.1) + step(r.0, y).1.take(m2).take(n));
+        }
+    } else {
+        // the extension has at least one more whole block, whose first n bytes are the tail
+        let nb = blocks2[k];
+        assert(blocks2.skip(k)[0] == nb);
+        reveal_with_fuel(run, 2);
+        let s1 = step(r.0, nb);
+        assert(rest.1.len() >= 1 && rest.1[0] == s1.1) by {
+            run_len(step, r.0, blocks2.skip(k));
+            assert(blocks2.skip(k) =~= seq![nb] + blocks2.skip(k).skip(1));
+            run_concat(step, r.0, seq![nb], blocks2.skip(k).skip(1));
+            run_one(step, r.0, nb);
+        }
+        flatg_head(rest.1);
+        let tailpart = if tail2.len() == 0 { Seq::<u8>::empty() } else { step(r2.0, zero_pad(tail2, b)).1.take(tail2.len() as int) };
+        assert(o2 =~= flatg(r.1) + flatg(rest.1) + tailpart);
+        assert(flatg(rest.1).take(n) =~= s1.1.take(n));
+        if n > 0 {
+            let x = zero_pad(tail, b);
+            assert(x.take(n) =~= nb.take(n)) by {
+                assert forall |i: int| 0 <= i < n implies x.take(n)[i] == nb.take(n)[i] by { assert(nb.take(n)[i] == tail[i]); }
+            }
+            assert(step(r.0, x).1.take(n) == s1.1.take(n));
+        }
+        assert((flatg(r.1) + flatg(rest.1) + tailpart).take(k * b + n) =~= flatg(r.1) + flatg(rest.1).take(n));
+        if n == 0 { assert(flatg(r.1) + flatg(rest.1).take(0) =~= flatg(r.1)); }
+    }
+}
+
